@@ -450,7 +450,12 @@ func (s *session) visitNode(sprint *sprint, run flows.Run, node flows.Node, trig
 
 	// this might be the first run of the session in which case a trigger might need to initialize the run
 	if trigger != nil {
-		if err := trigger.InitializeRun(run, logEvent); err != nil {
+		err := trigger.InitializeRun(run, logEvent)
+
+		// initializing the run can change the contact (e.g. last seen on) so ensure groups are still correct
+		s.ensureQueryBasedGroups(logEvent)
+
+		if err != nil {
 			return step, nil, "", nil
 		}
 	}
